@@ -226,7 +226,7 @@ Definition cols_equal_first (N : arr2) : Prop := forall r x, In r N -> In x r ->
 
 (** where the source cell (i, j) of a make_xarray_grid input lies: exactly
     (n[i], e[j]) for 1-D input; for 2-D input (N[i][j], E[i][j]), which the
-    grid's (y, x) matches within the allclose test that admitted the input,
+    grid's (y, x) matches within the allclose test that accepted the input,
     and exactly when the input is an exact meshgrid *)
 Definition source_cell (ce cn : nd) (i j : nat) (y x : V) : Prop :=
   match ce, cn with
@@ -324,7 +324,7 @@ Definition exact_meshgrid_b (E N : arr2) : bool := rows_close veqb E && cols_clo
     extra coordinate is in the grid under its name, with the requested dims,
     cell for cell, and the axis vectors are the source coordinates (exactly
     for 1-D input and exact meshgrids, within the allclose tolerance that
-    admitted the input otherwise) *)
+    accepted the input otherwise) *)
 Definition make_holds (ce cn : nd) (extras : list arr2) (data : dataarg)
     (data_names : names) (dims : string * string) (extra_names : names)
     (obs : option dataset) : bool :=
